@@ -9,7 +9,8 @@
    Quantification: every schedule of every length (reach), unbounded threads spawned by the environment thread.
    Repairs modelled: fixes/C07-guid-atomic.patch (atomic counter: [iinit true]), fixes/C07-error-reply.patch (an error
    reply inside a MessageWrapper fails the ask). The code as written is [iinit false]. *)
-From MV Require Import Lib.ListX Lib.Sched C07.FutLib C07.FutModel C07.FutProofs C07.IdsModel C07.IdsProofs.
+From MV Require Import Lib.ListX Lib.Sched C07.FutLib C07.FutModel C07.FutProofs C07.IdsModel C07.IdsProofs
+  C07.LifeModel C07.LifeSource C07.LifeProofs.
 Open Scope Z_scope.
 
 (* ---------------------------------------------------------------- the future process *)
@@ -129,6 +130,77 @@ Theorem C07_every_ask_armed : forall st, reach (iinit true) st -> unarmed (fst s
 Proof. exact every_ask_armed. Qed.
 Print Assumptions C07_every_ask_armed.
 
+(* ---------------------------------------------------------------- the id source over the life of an actor context
+   MV.C07.LifeModel: one actor address; every consumer of the context's counter (FutureAsk, the typed helper,
+   AwaitForward, ActorOf without a name) on any number of threads; restarts at any moment (same context, children
+   gone); [linit r b]: r = a store into the counter on the restart path (None = the source has none; tie T3 extracts
+   it from the tree under test), b = the actor may also be terminated and created again under the same name. *)
+
+(* every value nextChildGuid ever returned, tagged with the context that returned it, is distinct from every other:
+   the addresses handed out by ONE actor context are pairwise distinct over its whole life, restarts included,
+   whichever consumer took them *)
+Theorem C07_handed_distinct_whole_life : forall b st, reach (linit None b) st -> NoDup (lhanded (fst st)).
+Proof. exact handed_distinct. Qed.
+Print Assumptions C07_handed_distinct_whole_life.
+
+(* one context (restarts, no re-creation): the reply addresses of all its asks are pairwise distinct *)
+Theorem C07_ask_addresses_distinct_whole_life : forall st, reach (linit None false) st -> NoDup (lissued (fst st)).
+Proof. exact ask_addresses_distinct. Qed.
+Print Assumptions C07_ask_addresses_distinct_whole_life.
+
+(* corollary: no two live asks (issued, not yet resolved by a reply or a timeout) share a reply address *)
+Theorem C07_live_asks_distinct_addresses : forall st, reach (linit None false) st ->
+  forall r1 r2 id, llive (fst st) r1 -> llive (fst st) r2 ->
+    nth_error (lissued (fst st)) r1 = Some id -> nth_error (lissued (fst st)) r2 = Some id -> r1 = r2.
+Proof. exact live_asks_distinct_addresses. Qed.
+Print Assumptions C07_live_asks_distinct_addresses.
+
+(* one context: Register never reports an address taken — every future is initialised (timer armed: C07_no_hang
+   applies to every ask), no ActorOf / AwaitForward is refused — restarts included *)
+Theorem C07_every_ask_armed_whole_life : forall st, reach (linit None false) st ->
+  lunarmed (fst st) = [] /\ lrefused (fst st) = 0%nat.
+Proof. exact life_every_ask_armed. Qed.
+Print Assumptions C07_every_ask_armed_whole_life.
+
+(* one context: a future completes with a reply only if it is the reply to its own request — restarts included *)
+Theorem C07_own_reply_whole_life : forall st, reach (linit None false) st ->
+  forall o q, In (o, Some q) (lresults (fst st)) -> o = q.
+Proof. intros st Hr. exact (life_own_reply None false st Hr (ask_addresses_distinct st Hr)). Qed.
+Print Assumptions C07_own_reply_whole_life.
+
+(* the same four facts for any source whose extracted counter accesses are the machine's (tie T3 proves the
+   hypothesis for the tree under test by vm_compute on every run: Instance.v) *)
+Theorem C07_whole_life_at_source : forall acc cs cr, source_ok acc cs cr = true ->
+  forall st, reach (linit_src acc false) st ->
+    NoDup (lhanded (fst st)) /\ NoDup (lissued (fst st)) /\ lunarmed (fst st) = [] /\ lrefused (fst st) = 0%nat /\
+    (forall o q, In (o, Some q) (lresults (fst st)) -> o = q).
+Proof. exact at_source. Qed.
+Print Assumptions C07_whole_life_at_source.
+
+(* a restart path that stores 0 into the counter: ask 0 is pending across the restart, the first ask of the new
+   instance gets the same reply address; its future is never initialised (no timer) and never resolves, the old
+   ask resolves with the reply to the OTHER request *)
+Theorem C07_counter_reset_on_restart_refuted : forall b,
+  exists st, reach (linit (Some 0) b) st /\
+    lissued (fst st) = [1; 1] /\ ~ NoDup (lissued (fst st)) /\
+    lunarmed (fst st) = [1%nat] /\ lresults (fst st) = [(0%nat, Some 1%nat)] /\
+    lresolved 1%nat (lresults (fst st)) = false /\
+    snd st = [Some LEnv; None; None; None].
+Proof. exact reset_on_restart_refuted. Qed.
+Print Assumptions C07_counter_reset_on_restart_refuted.
+
+(* FULL statement "reply addresses are unique among live asks" for one actor ADDRESS is false of the source as it is:
+   the actor is terminated and created again under the same name (a new context, counter 0) while an ask of the
+   old context is still pending — same collision (open finding C07-respawn-same-name-reuses-reply-address) *)
+Theorem C07_unique_across_recreation_refuted :
+  exists st, reach (linit None true) st /\
+    lissued (fst st) = [1; 1] /\ ~ NoDup (lissued (fst st)) /\
+    lunarmed (fst st) = [1%nat] /\ lresults (fst st) = [(0%nat, Some 1%nat)] /\
+    lresolved 1%nat (lresults (fst st)) = false /\
+    snd st = [Some LEnv; None; None; None].
+Proof. exact respawn_refuted. Qed.
+Print Assumptions C07_unique_across_recreation_refuted.
+
 (* ---------------------------------------------------------------- non-vacuity *)
 
 (* a reply wins against the timer: done closed once, own message, nil error, address released, timer cancelled *)
@@ -163,3 +235,20 @@ Example C07_example_ids :
                                     (1%nat, ICSilent); (1%nat, ICNone); (1%nat, ICNone); (1%nat, ICNone)]
                  = Some (st, es) /\ issued (fst st) = [1; 2] /\ askers (fst st) = 1).
 Proof. split; eexists; eexists; (split; [vm_compute; reflexivity | vm_compute; repeat split; reflexivity]). Qed.
+
+(* the whole-life machine: an ask (id 1) pending, an anonymous child (id 2), a restart (the child is gone), an
+   AwaitForward (id 3), a second ask (id 4) answered: four distinct values, both futures armed, the second resolved
+   with its own reply; and the extracted description of the present source is accepted by [source_ok] *)
+Example C07_example_whole_life :
+  (exists st es, run (linit None false)
+     [(0%nat, LCThread); (1%nat, LCAsk); (1%nat, LCNone); (1%nat, LCSilent); (1%nat, LCChild); (1%nat, LCNone);
+      (0%nat, LCRestart); (1%nat, LCAwait); (1%nat, LCNone); (1%nat, LCAsk); (1%nat, LCNone); (1%nat, LCReply); (4%nat, LCNone)]
+     = Some (st, es) /\ lhanded (fst st) = [(0%nat, 1); (0%nat, 2); (0%nat, 3); (0%nat, 4)] /\ lissued (fst st) = [1; 4] /\
+       larmed (fst st) = [0%nat; 1%nat] /\ lresults (fst st) = [(1%nat, Some 1%nat)] /\ lreg (fst st) = [(1, PFut 0%nat); (3, PFwd)] /\
+       llive (fst st) 0%nat) /\
+  source_ok model_accesses example_consumers example_creators = true /\
+  source_rst reset_accesses = Some (Some 0) /\ source_ok reset_accesses example_consumers example_creators = false.
+Proof.
+  split; [|repeat split; reflexivity].
+  eexists; eexists. split; [vm_compute; reflexivity | vm_compute; repeat split; try reflexivity; lia].
+Qed.
